@@ -18,7 +18,7 @@ func init() {
 }
 
 func runC09(c *core.Ctx) {
-	runFixtures(c, "valid", "drop")
+	runFixtures(c, "valid", "drop", "fold")
 	c.Explain("Structural clauses of C09 decided from source on linux, windows and darwin builds of package hackpadfs/os: (R09.1) every call to a path-taking function of the standard os package receives, as each path operand, the first result of the name→OS-path mapping (rootedPath/toOSPath), at a point dominated by that call's nil-error edge — no raw name reaches the kernel; (R09.2) the mapping validates before it joins and joins path.Join(\"/\", root, name) in that order, so the result is root-prefixed; (R09.3) every non-error return of the reverse mapping returns the constant \".\" or a value tested by ValidPath on the way; (R09.4) the root-prefix test of the reverse mapping respects element boundaries (root+\"/\" or equality); (R09.5) every error produced by a standard os function or *os.File method leaves package os only through the translator that rewrites OS paths into FS-relative names; (R09.6) the exported reverse mapping refuses non-absolute paths before converting; (R09.7) no strings.Replace/ReplaceAll in package os deletes (replaces by the empty string) a non-constant pattern — the root's OS path is taken off a reported path with TrimPrefix only, so a name that contains the root's text again further down ('backup/data/x' under root 'data') is reported intact; (R09.8) a method of os.FS that builds a new os.FS (Sub) stores into every string field of the new value something derived from the receiver's same field — a volume name left at the constructor's default moves the view to another volume. NOT claimed: ToOSPath∘FromOSPath = id (string arithmetic), volume handling on real Windows paths beyond these shapes.")
 	c.Assume("A2: standard os/path/filepath functions behave as documented")
 	c.RuleDoc("R09.1", "only mapped paths reach standard os calls, on the mapping's success edge")
@@ -27,6 +27,8 @@ func runC09(c *core.Ctx) {
 	c.RuleDoc("R09.4", "root prefix test respects element boundaries")
 	c.RuleDoc("R09.5", "standard os errors pass through the translator")
 	c.RuleDoc("R09.6", "FromOSPath requires an absolute path")
+	c.RuleDoc("R09.10", "a Sub view of the OS-backed FS never stores the root \".\"")
+	c.RuleDoc("R09.9", "a prefix that is cut off an OS path is admitted by an exact, not a case-insensitive, comparison")
 	c.RuleDoc("R09.8", "a view built from an os.FS keeps every string configuration field of its parent")
 	c.RuleDoc("R09.7", "roots and volume names are removed from a path only as a prefix")
 	for _, p := range c.Progs {
@@ -48,6 +50,8 @@ func runC09(c *core.Ctx) {
 		r09Errors(c, p)
 		r09PrefixOnly(c, p)
 		r09SubKeepsConfig(c, p)
+		r09FoldThenCut(c, p)
+		r09NoDotRoot(c, p)
 		r09Abs(c, p, rev)
 		for _, v := range prefixTests(p, rev) {
 			c.Check(v.ok, "R09.4", "os.fromOSPath|"+v.key, v.pos, v.msg, v.msg)
@@ -495,11 +499,12 @@ func r09SubKeepsConfig(c *core.Ctx, p *load.Program) {
 				if !ok || ssax.FieldName(fa) != f || fa.X == ssa.Value(recv) {
 					return
 				}
-				if dependsOn(stv.Val, func(v ssa.Value) bool { return isLoadOfField(v, recv, f) }) {
+				val := stripDotNormalisation(stv.Val)
+				if dependsOn(val, func(v ssa.Value) bool { return isLoadOfField(v, recv, f) }) {
 					kept = true
 				}
 				// through the variadic slice of path.Join
-				if jc, ok := stv.Val.(*ssa.Call); ok && ssax.CalleeIs(jc, "path", "Join") {
+				if jc, ok := val.(*ssa.Call); ok && ssax.CalleeIs(jc, "path", "Join") {
 					for _, e := range variadicElems(jc.Call.Args[0]) {
 						if isLoadOfField(e, recv, f) {
 							kept = true
@@ -538,5 +543,132 @@ func r09SubKeepsConfig(c *core.Ctx, p *load.Program) {
 			c.Check(kept, "R09.8", key, p.Pos(fn.Pos()), "the new view's "+f+" derives from the receiver's (or the receiver's is known empty)",
 				fmt.Sprintf("%s builds a new os.FS whose %s does not come from the receiver's %s (it keeps the constructor's default): a Sub view of an FS on volume D: maps its names onto the default volume, and FromOSPath of the right path is refused", fname(fn), f, f))
 		}
+	}
+}
+
+// foldThenCut (R09.9): a string that is compared case-insensitively (strings.EqualFold) and is also the prefix of a
+// strings.TrimPrefix / HasPrefix in the same function: the comparison admits spellings the cut does not remove
+// ("c:\foo" on the volume "C:" is accepted, the volume is not stripped, and the result "c:/foo" is a valid-looking
+// name that ToOSPath does not map back).
+type foldSite struct {
+	fn  *ssa.Function
+	pos token.Pos
+}
+
+func foldThenCut(fns []*ssa.Function) []*foldSite {
+	var out []*foldSite
+	for _, fn := range fns {
+		if fn.Blocks == nil {
+			continue
+		}
+		var folds []*ssa.Call
+		cuts := map[ssa.Value]bool{}
+		ssax.Instrs(fn, func(ins ssa.Instruction) {
+			cl, ok := ins.(*ssa.Call)
+			if !ok {
+				return
+			}
+			switch {
+			case ssax.CalleeIs(cl, "strings", "EqualFold"):
+				folds = append(folds, cl)
+			case ssax.CalleeIs(cl, "strings", "TrimPrefix"), ssax.CalleeIs(cl, "strings", "HasPrefix"), ssax.CalleeIs(cl, "strings", "CutPrefix"):
+				cuts[cl.Call.Args[1]] = true
+			}
+		})
+		for _, f := range folds {
+			if cuts[f.Call.Args[0]] || cuts[f.Call.Args[1]] {
+				out = append(out, &foldSite{fn: fn, pos: f.Pos()})
+			}
+		}
+	}
+	return out
+}
+
+func r09FoldThenCut(c *core.Ctx, p *load.Program) {
+	ord := ordinals{}
+	sites := foldThenCut(pkgFuncs(p, "os"))
+	for _, s := range sites {
+		c.Bad("R09.9", ord.next(fname(s.fn)+"|fold-then-cut"), p.Pos(s.pos), fmt.Sprintf("%s admits a path by comparing a prefix case-insensitively (strings.EqualFold) and then cuts that prefix off with a case-sensitive strings.TrimPrefix: a volume that differs only in letter case is accepted but not stripped — FromOSPath returns a valid-looking name (\"c:/foo\") that ToOSPath does not map back to the input", fname(s.fn)))
+	}
+	if len(sites) == 0 {
+		c.OK("R09.9", "no-fold-then-cut", "", "no prefix that is cut off a path is admitted by a case-insensitive comparison")
+	}
+}
+
+// r09NoDotRoot (R09.10): the root a Sub view of the OS-backed FS stores is never ".": path.Join("", ".") is ".", and
+// FromOSPath compares OS paths (volume and leading separator cut off) with "root" and "root/", which "." never
+// matches — Sub(".") of an FS without a root would refuse every OS path its parent accepts, and ToOSPath/FromOSPath
+// would stop being inverse. The stored value is "" on the edge where the joined path is ".".
+func r09NoDotRoot(c *core.Ctx, p *load.Program) {
+	fn := p.Method("os", "FS", "Sub")
+	if fn == nil {
+		c.Hard("anchor: os.FS.Sub")
+		return
+	}
+	n := 0
+	ssax.Instrs(fn, func(ins ssa.Instruction) {
+		st, ok := ins.(*ssa.Store)
+		if !ok {
+			return
+		}
+		fa, ok := st.Addr.(*ssa.FieldAddr)
+		if !ok || ssax.FieldName(fa) != "root" {
+			return
+		}
+		n++
+		key := fname(fn) + "|root-is-never-dot"
+		good := false
+		isDotTest := func(cond ssa.Value, v ssa.Value) (eq bool, ok bool) {
+			bo, isB := cond.(*ssa.BinOp)
+			if !isB || bo.Op != token.EQL && bo.Op != token.NEQ {
+				return false, false
+			}
+			var other ssa.Value
+			switch {
+			case bo.X == v:
+				other = bo.Y
+			case bo.Y == v:
+				other = bo.X
+			default:
+				return false, false
+			}
+			if s, isC := ssax.ConstString(other); isC && s == "." {
+				return bo.Op == token.EQL, true
+			}
+			return false, false
+		}
+		switch x := st.Val.(type) {
+		case *ssa.Phi:
+			// root = join; if join == "." { root = "" }
+			hasEmpty := false
+			var joined ssa.Value
+			for _, e := range x.Edges {
+				if s, isC := ssax.ConstString(e); isC && s == "" {
+					hasEmpty = true
+				} else {
+					joined = e
+				}
+			}
+			if hasEmpty && joined != nil {
+				for _, b := range fn.Blocks {
+					if ifi, ok := b.Instrs[len(b.Instrs)-1].(*ssa.If); ok {
+						if _, isT := isDotTest(ifi.Cond, joined); isT {
+							good = true
+						}
+					}
+				}
+			}
+		default:
+			for _, f := range ssax.FactsAtInstr(st) {
+				if eq, isT := isDotTest(f.Cond, st.Val); isT && eq != f.Val {
+					good = true
+				}
+			}
+		}
+		c.Check(good, "R09.10", key, p.Pos(st.Pos()), "the joined root \".\" is stored as \"\" (no root)",
+			fmt.Sprintf("%s stores path.Join(root, dir) as the view's root without turning \".\" into \"\": os.NewFS().Sub(\".\") gets the root \".\", FromOSPath then demands that an OS path equals \".\" or starts with \"./\" and refuses every path the parent accepts — ToOSPath and FromOSPath are not inverse on that view", fname(fn)))
+	})
+	if n == 0 {
+		c.Hard("anchor: store of the root field in os.FS.Sub")
 	}
 }
